@@ -116,6 +116,7 @@ class EndpointLog:
         self.ids = {}            # id(IkeSa) -> sa id
         self.keep = []
         self.cookie_known = set()
+        self.timers = {}
 
     def conf_id(self, conf):
         for i, c in enumerate(self.confs):
@@ -141,6 +142,7 @@ class HdlRecorder:
         self.logs = {}
         self.depth = 0
         self.keygen = 0
+        self.in_iv = 0
         self.tape = None
         self.kops = None
         self.first_parse = None
@@ -183,7 +185,13 @@ class HdlRecorder:
         if r is None:
             return None
         ps = r.payloads if int(r.exchange_type) == 34 else r.encrypted_payloads
-        return [int(r.exchange_type), [payload_sx(p) for p in ps]]
+        out = []
+        for p in ps:
+            x = payload_sx(p)
+            if x[0] == 33:      # the SPIs of the (shared, mutable) proposals of a stored request are not compared
+                x = [33, [[q[0], q[1], b'', q[3]] for q in x[1]]]
+            out.append(x)
+        return [int(r.exchange_type), out]
 
     def state_sx(self, sa):
         return [self.core_sx(sa), self.core_sx(sa.new_ike_sa) if sa.new_ike_sa is not None else None,
@@ -212,6 +220,25 @@ class HdlRecorder:
         lg.calls.append((kind, sid, args, list(self.tape), int(self.sim.clock)))
         lg.expected.append([self.state_sx(sa), self.msg_of_bytes(reply), list(self.kops)])
 
+    def sync_timers(self, sa):
+        """The scenario driver forces timers by writing the real object's fields; tell the model."""
+        lg = self.log()
+        sid = lg.ids.get(id(sa))
+        if sid is None:
+            return
+        cur = [int(sa.start_dpd_at), int(sa.rekey_ike_sa_at), int(sa.delete_ike_sa_at)]
+        last = lg.timers.get(sid)
+        if last is not None and last != cur:
+            lg.calls.append((10, sid, cur, [], int(self.sim.clock)))
+            lg.expected.append([self.state_sx(sa), None, []])
+        lg.timers[sid] = cur
+
+    def note_timers(self, sa):
+        lg = self.log()
+        sid = lg.ids.get(id(sa))
+        if sid is not None:
+            lg.timers[sid] = [int(sa.start_dpd_at), int(sa.rekey_ike_sa_at), int(sa.delete_ike_sa_at)]
+
     def ensure_cookie(self, sa):
         lg = self.log()
         sid = lg.ids.get(id(sa))
@@ -237,6 +264,7 @@ class HdlRecorder:
         lg.keep.append(sa)
         lg.calls.append((7, lg.ids[id(creator)], [new_id], [], int(self.sim.clock)))
         lg.expected.append([self.state_sx(creator), self.state_sx(sa), []])
+        self.note_timers(sa)
         del self.pending_new[id(sa)]
         return True
 
@@ -254,10 +282,20 @@ class HdlRecorder:
 
         def urandom(n):
             v = inner_urandom(n)
-            if rec.depth > 0:
+            if rec.depth > 0 and not rec.in_iv:
                 rec.tape.append([0, bytes(v)])
             return v
         st.enter_context(mock.patch('os.urandom', urandom))
+
+        inner_generate_iv = crypto.Cipher.generate_iv
+
+        def generate_iv(self_):
+            rec.in_iv += 1            # the IV of an encrypted payload is the codec's business, not a handler draw
+            try:
+                return inner_generate_iv(self_)
+            finally:
+                rec.in_iv -= 1
+        st.enter_context(mock.patch.object(crypto.Cipher, 'generate_iv', generate_iv))
 
         InnerSysRand = message.SystemRandom
 
@@ -464,6 +502,7 @@ class HdlRecorder:
                 if cookie_secret is not None:
                     lg.cookie_known.add(sid)
                 lg.expected.append([rec.state_sx(self_), None, []])
+                rec.note_timers(self_)
             else:
                 rec.pending_new[id(self_)] = (self_, rec.current_sa)
                 self_._verif_keep = self_
@@ -480,6 +519,7 @@ class HdlRecorder:
                     rec.problems.append(f'{name} on an IkeSa the recorder never saw being created')
                     return inner(self_, *a, **k)
                 rec.ensure_cookie(self_)
+                rec.sync_timers(self_)
                 rec.begin()
                 rec.current_sa = self_
                 ok = False
@@ -493,6 +533,7 @@ class HdlRecorder:
                         args = argf(self_, *a, **k)
                         if args is not None:
                             rec.record(kind, self_, args, r if kind != 8 else None)
+                    rec.note_timers(self_)
             return mock.patch.object(IkeSa, name, w)
 
         def pm_args(self_, data):
